@@ -6,6 +6,7 @@ import CookModel.Lemmas.TrailingSpace
 import CookModel.Lemmas.SimEventsFull
 import CookModel.Lemmas.SimBlankLines
 import CookModel.Lemmas.RecipeSimStatic
+import CookModel.Lemmas.RecipeSimBlank
 /-
   C17  Line endings, comments and blank space do not change the recipe.
 
@@ -576,6 +577,43 @@ example : lexFrom toyCharSpec 3 ['-', '-', 'x', '\n'] = [⟨.lineComment, ['-', 
   simp [lexFrom_cons, lexOne, lexFrom, utf8Len]
   decide
 
+/-- **Extra blank / comment-only line in the source: same events** (inputs without front matter).
+    In the setting of `C17_extra_blank_line_source` (source `u e0 x`, a further blank or comment-only
+    line `e` inserted after `e0`), when neither variant has a front-matter block, the whole
+    `PullParser` run yields `EvSim`-related event lists (all spans behind the insertion shift). -/
+theorem C17_extra_blank_line_source_events {α : Type} [Arith α] (cs : CharSpec) (hu : UwsNL cs) (ext : Ext)
+    (u e0 e x : List Char) (L : List (List Tok)) (hlu : lex cs u = L.flatten) (hL : ∀ l ∈ L, IsLine l)
+    (hE0 : EmptyLine (lexFrom cs (utf8Len u) e0)) (hE : EmptyLine (lexFrom cs (utf8Len u + utf8Len e0) e))
+    (h1 : parseFrontmatter cs (u ++ (e0 ++ (e ++ x))) = none) (h2 : parseFrontmatter cs (u ++ (e0 ++ x)) = none) :
+    LRel (EvSim cs.uws) (pullEvents (α := α) cs ext (u ++ (e0 ++ (e ++ x)))).1.toList
+      (pullEvents (α := α) cs ext (u ++ (e0 ++ x))).1.toList :=
+  blank_line_source_events cs hu ext u e0 e x L hlu hL hE0 hE h1 h2
+
+/-- **… and the same recipe (partial: no front matter, text define mode excluded).**  `parse` of
+    the source with the extra line and of the source without it are `ResSim`-related: same
+    sections, steps, items, EQUAL text items, same tables and metadata map, same validity,
+    diagnostics of the same kinds in the same order.  MISSING: inputs with a front-matter block
+    (the front-matter split is not related for insertions, only for CRLF), and text define mode
+    with components (there the copied source slice should be the same text; proving it needs the
+    spans of the two runs related by the shift, which `EvSim` does not record). -/
+theorem C17_extra_blank_line_source_recipe_partial {α : Type} [Arith α] (env : Env) (hu : UwsNL env.cs)
+    (u e0 e x : List Char) (L : List (List Tok)) (hlu : lex env.cs u = L.flatten) (hL : ∀ l ∈ L, IsLine l)
+    (hE0 : EmptyLine (lexFrom env.cs (utf8Len u) e0)) (hE : EmptyLine (lexFrom env.cs (utf8Len u + utf8Len e0) e))
+    (h1 : parseFrontmatter env.cs (u ++ (e0 ++ (e ++ x))) = none) (h2 : parseFrontmatter env.cs (u ++ (e0 ++ x)) = none)
+    (hf : TextModeFree env (u ++ (e0 ++ x)) (pullEvents (α := α) env.cs env.ext (u ++ (e0 ++ x))).1.toList {}) :
+    ResSim env.cs.uws (parseRecipe (α := α) env (u ++ (e0 ++ (e ++ x)))) (parseRecipe (α := α) env (u ++ (e0 ++ x))) :=
+  blank_line_source_recipe env hu u e0 e x L hlu hL hE0 hE h1 h2 hf
+
+/-- the same with the MODES extension off: no proviso about text mode -/
+theorem C17_extra_blank_line_source_recipe_modes_off {α : Type} [Arith α] (env : Env) (hu : UwsNL env.cs)
+    (hm : env.ext.has Gen.EXT_MODES = false)
+    (u e0 e x : List Char) (L : List (List Tok)) (hlu : lex env.cs u = L.flatten) (hL : ∀ l ∈ L, IsLine l)
+    (hE0 : EmptyLine (lexFrom env.cs (utf8Len u) e0)) (hE : EmptyLine (lexFrom env.cs (utf8Len u + utf8Len e0) e))
+    (h1 : parseFrontmatter env.cs (u ++ (e0 ++ (e ++ x))) = none) (h2 : parseFrontmatter env.cs (u ++ (e0 ++ x)) = none) :
+    ResSim env.cs.uws (parseRecipe (α := α) env (u ++ (e0 ++ (e ++ x)))) (parseRecipe (α := α) env (u ++ (e0 ++ x))) :=
+  blank_line_source_recipe env hu u e0 e x L hlu hL hE0 hE h1 h2 (pullEvents_textModeFree env hm _)
+
+/-- non-vacuity of `TextModeFree` on a concrete stream (a timer inside a step block), by direct evaluation -/
 theorem C17_text_mode_free_of_wb_example :
     TextModeFree (α := Rat) ⟨toyCharSpec, ⟨0⟩, fun _ => none, fun _ _ => .ok, fun c => [c], 0⟩ []
       [.start .step, .timer ⟨⟨none, none⟩, ⟨0, 0⟩⟩, .stop .step] {} := by
